@@ -66,6 +66,38 @@ theorem dist_regular_body_refines (N : Nat) (rates : Nat → Int) (rate : Int) (
   all_goals (split <;> simp_all)
 
 
+/-! #### the part of `withRegularDistribution` / `withRandomDistribution` before the closure -/
+
+/-- an interval of at most 100 ms: the rate function and the interval are handed back unchanged -/
+theorem dist_regular_init_passthrough (iv : Int) (h : iv ≤ subTickNs) :
+    observe (runFn (F := F) (fun _ _ _ => .nil) 0 dist_regular_init (State.ofVars [("arg0", .int iv), ("arg1", .nonNil)])) [] =
+      some ([.int iv, .nonNil], []) := by
+  simp [minigo, dist_regular_init, subTickNs] at *
+  simp [h]
+
+/-- otherwise the closure starts from: no sub-ticks left (so the first call evaluates the rate), a zero accumulator,
+`tickSteps = ⌊interval/100 ms⌋` (in whole milliseconds, as `Dist.tickSteps`), and the new interval is 100 ms -/
+theorem dist_regular_init_state (iv : Int) (h : ¬ iv ≤ subTickNs) :
+    observe (runFn (F := F) (fun _ _ _ => .nil) 0 dist_regular_init (State.ofVars [("arg0", .int iv), ("arg1", .nonNil)]))
+      ["distributedIterationDuration", "rate", "accRate", "remainingSteps", "tickSteps"] =
+      some ([], [some (.int subTickNs), some (.int 0), some (.flt (FloatLike.ofLit 0 (-1))), some (.int 0),
+                 some (.int (tickSteps iv))]) := by
+  simp [minigo, dist_regular_init, subTickNs, tickSteps] at *
+  simp [h]
+
+theorem dist_random_init_passthrough (iv : Int) (h : iv ≤ subTickNs) :
+    observe (runFn (F := F) (fun _ _ _ => .nil) 0 dist_random_init (State.ofVars [("arg0", .int iv), ("arg1", .nonNil),
+      ("arg2", .nonNil)])) [] = some ([.int iv, .nonNil], []) := by
+  simp [minigo, dist_random_init, subTickNs] at *
+  simp [h]
+
+theorem dist_random_init_state (iv : Int) (h : ¬ iv ≤ subTickNs) :
+    observe (runFn (F := F) (fun _ _ _ => .nil) 0 dist_random_init (State.ofVars [("arg0", .int iv), ("arg1", .nonNil),
+      ("arg2", .nonNil)])) ["distributedIterationDuration", "remainingRate", "remainingSteps", "tickSteps"] =
+      some ([], [some (.int subTickNs), some (.int 0), some (.int 0), some (.int (tickSteps iv))]) := by
+  simp [minigo, dist_random_init, subTickNs, tickSteps] at *
+  simp [h]
+
 end dist
 
 
